@@ -26,8 +26,7 @@ theorem act_once {c : Cfg} {s s' : Sh} {pc pc' : Pc} {sp : List Pc}
     | (simp_all [Pc.holds, holdsI, Pc.sawDisposed, Pc.winS]; done)
     | (simp_all [Pc.holds, holdsI, Pc.sawDisposed, Pc.winS, List.count_cons, List.count_append, List.count_singleton] <;> omega)
     | (simp_all [Pc.holds, holdsI, Pc.sawDisposed, Pc.winS, List.count_cons, List.count_append, List.count_singleton]
-        <;> split <;> simp_all <;> omega)
-    | (trace_state; sorry))
+        <;> split <;> simp_all <;> omega))
 
 
 structure OnceInv (s : Sys) : Prop where
